@@ -249,14 +249,14 @@ func (changes *Changes) Move(dest string) error {
 
 	for _, file := range changes.AbsFiles() {
 		dirname := filepath.Base(file.Filename)
-		err := os.Rename(file.Filename, dest+"/"+dirname)
+		err := internal.Move(file.Filename, dest+"/"+dirname)
 		if err != nil {
 			return err
 		}
 	}
 
 	dirname := filepath.Base(changes.Filename)
-	err := os.Rename(changes.Filename, dest+"/"+dirname)
+	err := internal.Move(changes.Filename, dest+"/"+dirname)
 	changes.Filename = dest + "/" + dirname
 	return err
 }
